@@ -16,7 +16,6 @@ NAN = float('nan')
 FUNC_NAMES = ['ItemModifier', 'LocationModifier', 'LocationGroupModifier', 'LocationRequiredSkillModifier',
               'OwnerRequiredSkillModifier']
 ID_KEYS = [('groupID', 10), ('skillTypeID', 20), ('modifiedAttributeID', 30), ('modifyingAttributeID', 40)]
-NCHUNKS = 16
 
 # digit -> Python values with that abstract meaning (first = representative of the main product)
 FUNC_VALUES = {0: [FUNC_NAMES[0]], 1: [FUNC_NAMES[1]], 2: [FUNC_NAMES[2]], 3: [FUNC_NAMES[3]], 4: [FUNC_NAMES[4]],
@@ -114,51 +113,43 @@ def run_row(ModBuilder, conv, entry):
     return out, view
 
 
-def main_product():
-    for f in range(5):
-        u = uses(f)
-        for d in range(8):
-            for o in range(11):
-                for g in (range(6) if u[0] else [5]):
-                    for s in (range(6) if u[1] else [5]):
-                        for t in range(6):
-                            for m in range(6):
-                                yield f, d, o, (g, s, t, m), None
+def good(f):
+    return tuple(0 if x else 5 for x in uses(f)) if f < 5 else (0, 0, 0, 0)
+
+
+def id_patterns(f):
+    """Digit 4-tuples of a block, in the order of `Eos.ModInfo.idPatterns`."""
+    u = uses(f)
+    pats = [(g, s, t, m) for g in (range(6) if u[0] else [5]) for s in (range(6) if u[1] else [5])
+            for t in range(6) for m in range(6)]
+    for p in range(4):
+        for dig in ([6, 7, 8, 9] if u[p] else [0, 1, 2, 3, 4, 6, 7, 8, 9]):
+            ids = list(good(f))
+            ids[p] = dig
+            pats.append(tuple(ids))
+    return pats
+
+
+def row_entries():
+    """Irregular part: (f, d, o, ids, variant) for the row table; the first 177 are required."""
     for f in (5, 6):
         for d in range(8):
             for o in range(11):
                 yield f, d, o, (0, 0, 0, 0), None
     yield 7, 0, 0, (0, 0, 0, 0), None
-
-
-def side_rows():
-    """Further shapes (negative, bool, nan, unhashable, float operation, ...), unused id fields filled, and
-    every alternative Python value of each abstract digit."""
-    def good(f):
-        u = uses(f)
-        return tuple(0 if x else 5 for x in u)
-    for f in range(5):
-        u = uses(f)
-        for p in range(4):
-            for dig in (range(6, 10) if u[p] else [0, 1, 2, 3, 4, 6, 7, 8, 9]):
-                for d in range(8):
-                    for o in range(11):
-                        ids = list(good(f))
-                        ids[p] = dig
-                        yield f, d, o, tuple(ids), None
+    for f in range(5):          # further domain / operation values
         for d in range(9):
             for o in range(17):
                 if d == 8 or o > 10:
                     yield f, d, o, good(f), None
-    for f in (8, 9):
+    for f in (8, 9):            # unhashable / None function value
         for d in range(8):
             for o in range(11):
                 yield f, d, o, (0, 0, 0, 0), None
-    # alternative values
+    # every alternative Python value of each abstract digit
     for f in range(10):
-        fd = (f, 2, 3, good(f) if f < 5 else (0, 0, 0, 0))
         for i in range(1, len(NONDICT_VALUES if f == 7 else FUNC_VALUES[f])):
-            yield fd[0], fd[1], fd[2], fd[3], {'f': i}
+            yield f, 2, 3, good(f), {'f': i}
     for f in range(5):
         for d, vs in DOMAIN_VALUES.items():
             for i in range(1, len(vs)):
@@ -200,55 +191,49 @@ def status_grid(ModBuilder):
     return rows, empty
 
 
-def all_rows():
+def tables():
+    """(blocks, rows, (status grid, empty cases)) from the real code."""
     C.load_repo()
     from eos.eve_obj_builder.mod_builder import ModBuilder
     from eos.eve_obj_builder.mod_builder.converter import ModInfoconverter
-    main, side = [], []
-    for src, dst in ((main_product(), main), (side_rows(), side)):
-        for f, d, o, ids, var in src:
-            out, view = run_row(ModBuilder, ModInfoconverter, entry_of(f, d, o, ids, var))
-            dst.append((code_of(f, d, o, ids), out, view))
-    return main, side, status_grid(ModBuilder)
+    blocks = []
+    for f in range(5):
+        pats = id_patterns(f)
+        for d in range(8):
+            for o in range(11):
+                recs = [run_row(ModBuilder, ModInfoconverter, entry_of(f, d, o, ids)) for ids in pats]
+                blocks.append((f * 1000 + d * 100 + o, recs))
+    rows = [(code_of(f, d, o, ids),) + run_row(ModBuilder, ModInfoconverter, entry_of(f, d, o, ids, var))
+            for f, d, o, ids, var in row_entries()]
+    return blocks, rows, status_grid(ModBuilder)
 
 
 HEAD = '/- GENERATED by tools/gen/modinfo_table.py by running eos/eve_obj_builder/mod_builder on every entry. Do not edit. -/\n'
-
-
-ROW = 10 ** 28          # entry code (8 digits) . outcome code (18 digits) . build view (2 digits)
 PER_LINE = 32
 
 
-def pack(rows):
+def pack_rows(rows):
     """(count, decimal number whose 28-digit groups are the rows, first row most significant)."""
-    n = 0
-    for e, out, view in rows:
-        n = n * ROW + (e * 10 ** 18 + out) * 100 + view
-    return '(%d, %d)' % (len(rows), n)
+    return '(%d, %s)' % (len(rows), ''.join('%08d%018d%02d' % r for r in rows).lstrip('0') or '0')
 
 
 def generate():
-    sys.set_int_max_str_digits(0)
-    main, side, (grid, empty) = all_rows()
-    rows = main + side
-    per = -(-len(rows) // (NCHUNKS * PER_LINE)) * PER_LINE
+    blocks, rows, (grid, empty) = tables()
     defs = []
-    for k in range(NCHUNKS):
-        part = rows[k * per:(k + 1) * per]
-        defs.append('/-- rows %d .. %d -/\ndef chunk%02d : List (Nat × Nat) := [\n%s]\n' % (
-            k * per, k * per + len(part) - 1, k,
-            ',\n'.join(' ' + pack(part[i:i + PER_LINE]) for i in range(0, len(part), PER_LINE))))
+    for f in range(5):
+        part = [b for b in blocks if b[0] // 1000 == f]
+        defs.append('/-- blocks of %s: (header `f d oo`, 1 . 20-digit records `outcome (18) . build view (2)` of all %d id patterns) -/\n'
+                    'def blocks%d : List (Nat × Nat) := [\n%s]\n' % (
+                        FUNC_NAMES[f], len(part[0][1]), f,
+                        ',\n'.join(' (%d, 1%s)' % (h, ''.join('%018d%02d' % r for r in recs)) for h, recs in part)))
     text = HEAD + '''namespace EosGen.ModInfoTable
 
-/-! Per-entry table.  A row is the 28-digit record `entry code (8) . outcome code (18) . build view (2)`
-    (see `Eos.ModInfo.decodeEntry / encodeOutcome / buildView`); an element `(k, n)` packs k rows as the
-    consecutive 28-digit groups of n, first row most significant. -/
+/-! Encodings: see the transport section of `EosModel/ModInfo.lean`. -/
 
 %s
-/-- Number of leading rows that form the main product (in product order); the rest are side rows. -/
-def mainCount : Nat := %d
-
-def chunks : List (List (Nat × Nat)) := [%s]
+/-- Irregular rows, packed `(k, k 28-digit records entry code (8) . outcome (18) . build view (2))`. -/
+def rows : List (Nat × Nat) := [
+%s]
 
 /-- (valid entries, convertible-but-invalid entries, failing entries, status, emitted modifiers) by running
     `ModBuilder().build` on such lists. -/
@@ -259,7 +244,8 @@ def statusGrid : List (Nat × Nat × Nat × Nat × Nat) := [
 def emptyCases : List (Nat × Nat × Nat) := [%s]
 
 end EosGen.ModInfoTable
-''' % ('\n'.join(defs), len(main), ', '.join('chunk%02d' % k for k in range(NCHUNKS)),
+''' % ('\n'.join(defs),
+       ',\n'.join(' ' + pack_rows(rows[i:i + PER_LINE]) for i in range(0, len(rows), PER_LINE)),
        ',\n'.join(' ' + ', '.join('(%d, %d, %d, %d, %d)' % r for r in grid[i:i + 6]) for i in range(0, len(grid), 6)),
        ', '.join('(%d, %d, %d)' % r for r in empty))
     return {'EosGen/ModInfoTable.lean': text}
